@@ -684,3 +684,63 @@ func evalStr(s *Str, env map[string]uint64, memo map[int]uint64) string {
 	}
 	return sb.String()
 }
+
+// ReplaceConst is strings.Replace(s, old, nw, -1) for concrete, non-empty old
+// and concrete nw: greedy, left to right, non-overlapping, byte-exact.
+func (so *StrOps) ReplaceConst(s *Str, old, nw string) *Str {
+	b := so.b
+	if x, ok := s.Concrete(); ok {
+		return so.Const(strings.Replace(x, old, nw, -1))
+	}
+	f := so.Flat(s)
+	g := so.Flat(so.Const(old))
+	n, k := len(f.B), len(old)
+	start := make([]*Term, n)
+	covered := make([]*Term, n)
+	for i := 0; i < n; i++ {
+		cov := b.False
+		for j := i - k + 1; j < i; j++ {
+			if j >= 0 {
+				cov = b.Or(cov, start[j])
+			}
+		}
+		covered[i] = cov
+		start[i] = b.And(so.matchAt(f, g, i), b.Not(cov))
+	}
+	capOut := n
+	if len(nw) > k {
+		capOut = n/k*len(nw) + n%k
+	}
+	out := make([]*Term, capOut)
+	for p := range out {
+		out[p] = b.BV(0, 8)
+	}
+	// pos[i]: number of bytes emitted before input position i
+	pos := b.BV(0, 64)
+	type unit struct {
+		pos  *Term
+		cond *Term
+		bt   *Term
+		off  int
+	}
+	var units []unit
+	for i := 0; i < n; i++ {
+		live := b.ULt(b.BV(uint64(i), 64), f.Len)
+		plain := b.And(live, b.Not(start[i]), b.Not(covered[i]))
+		units = append(units, unit{pos, plain, f.B[i], 0})
+		for q := 0; q < len(nw); q++ {
+			units = append(units, unit{pos, start[i], b.BV(uint64(nw[q]), 8), q})
+		}
+		pos = b.Add(pos, b.Ite(start[i], b.BV(uint64(len(nw)), 64), b.Ite(plain, b.BV(1, 64), b.BV(0, 64))))
+	}
+	for p := 0; p < capOut; p++ {
+		for u := len(units) - 1; u >= 0; u-- {
+			x := units[u]
+			if x.cond.IsFalse() || p < x.off {
+				continue
+			}
+			out[p] = b.Ite(b.And(x.cond, b.Eq(x.pos, b.BV(uint64(p-x.off), 64))), x.bt, out[p])
+		}
+	}
+	return so.FromSym(&SymStr{Len: pos, B: out})
+}
